@@ -444,7 +444,10 @@ class Interp:
             base = self.eval(t.value, frame)
             i = self.eval(t.slice, frame)
             if isinstance(base, (list, dict)) and not isinstance(i, Residual):
-                base[i] = v
+                try:
+                    base[i] = v
+                except (TypeError, IndexError, KeyError) as ex:
+                    raise Raised(type(ex).__name__)
                 bk = self.attr_key(t.value, frame) or unparse(t.value)
                 self.path.trace.append(("setitem", f"{bk}[{txt(i)}]", v))
             else:
@@ -482,7 +485,16 @@ class Interp:
                     return None
             else:
                 base = n.id
-            return ".".join([base] + list(reversed(parts)))
+            # resolve aliases: an intermediate attribute that holds an abstract object rebases the key on it
+            cur = base
+            attrs = list(reversed(parts))
+            for i, a in enumerate(attrs):
+                k = f"{cur}.{a}"
+                if i < len(attrs) - 1 and isinstance(self.store.get(k), Obj):
+                    cur = self.store[k].name
+                else:
+                    cur = k
+            return cur
         if isinstance(n, ast.Subscript) or isinstance(n, ast.Call):
             try:
                 b = self.eval(n, frame)
@@ -509,6 +521,8 @@ class Interp:
             cls = self.types.get(base) or (base if self.idx is not None and self.idx.has_cls(base) and len(self.idx.classes[base]) == 1 else None)
             if cls and self.idx is not None and self.idx.has_cls(cls):
                 for c in self.idx.mro(cls):
+                    if "Enum" in c.bases:
+                        break  # enum members are objects, not their literal values
                     if attr in c.class_assigns:
                         try:
                             return True, ast.literal_eval(c.class_assigns[attr])
